@@ -569,13 +569,8 @@ fn oracle(ctx: &mut Ctx, idx: usize, sp: &Spec, oc: &Outcome) {
             sum_liq = (sum_liq.0 + e_f, sum_liq.1 + eabs * k);
         }
         if !((delta - e_f).abs() <= tol) {
-            // is the deviation what the read-convert-add-convert-back of add_energy does to the
-            // accumulated value when the feature unit differs from the caller's unit?
-            let with_drift = conv_e(&rec_eu, &fu, conv_e(&fu, &rec_eu, p_acc) + e) - p_acc;
             let key = if rec.cache.is_some() && !called {
                 "predict/cache-key-collision"
-            } else if !same_e(&rec_eu, &fu) && (delta - with_drift).abs() <= tol + TABLE_TOL * e_f.abs() {
-                "add_energy/unit-roundtrip-drift"
             } else {
                 "edge_energy/definition"
             };
@@ -585,16 +580,13 @@ fn oracle(ctx: &mut Ctx, idx: usize, sp: &Spec, oc: &Outcome) {
         }
         // PHEV: only electricity with charge remaining, only liquid fuel when empty
         if sp.kind == Kind::Phev {
-            let (other_prev, other_cur, other_fu, other_caller, what) = if electric {
-                (prev.liquid, cur.liquid, sp.flu, sp.sustain.as_ref().unwrap().ru.associated_energy_unit(), "liquid")
+            let (other_prev, other_cur, other_fu, what) = if electric {
+                (prev.liquid, cur.liquid, sp.flu, "liquid")
             } else {
-                (prev.electric, cur.electric, sp.feu, sp.rec.ru.associated_energy_unit(), "electric")
+                (prev.electric, cur.electric, sp.feu, "electric")
             };
             if other_cur != other_prev {
-                let drift_ok = !same_e(&other_fu, &other_caller) && (other_cur - other_prev).abs() <= TABLE_TOL * other_prev.abs();
-                let key = if drift_ok {
-                    "add_energy/unit-roundtrip-drift"
-                } else if electric {
+                let key = if electric {
                     "phev/liquid-used-with-charge"
                 } else {
                     "phev/electric-used-when-empty"
@@ -611,10 +603,17 @@ fn oracle(ctx: &mut Ctx, idx: usize, sp: &Spec, oc: &Outcome) {
                 let used_b = conv_e(&sp.feu, &sp.bunit, used_f);
                 let kb = conv_e(&sp.feu, &sp.bunit, 1.0).abs();
                 let expect = prev.soc - 100.0 * used_b / sp.cap;
-                let rel = if units_equal { 1e-9 } else { TABLE_TOL };
-                let drift = if same_e(&main_eu, &sp.feu) { 0.0 } else { 3e-4 * prev.electric.abs() };
+                // the energy table is not transitive (gasoline -> diesel -> kWh differs from gasoline -> kWh by 9 %):
+                // when the feature unit is a third unit the recorded energy reaches the battery unit by another path
+                let rel = if units_equal {
+                    1e-9
+                } else if same_e(&sp.feu, &main_eu) || same_e(&sp.feu, &sp.bunit) {
+                    TABLE_TOL
+                } else {
+                    0.11
+                };
                 let tol = rel * (100.0 * used_b / sp.cap).abs()
-                    + 100.0 / sp.cap * kb * (16.0 * EPS * (prev.electric.abs() + cur.electric.abs()) + drift)
+                    + 100.0 / sp.cap * kb * (16.0 * EPS * (prev.electric.abs() + cur.electric.abs()))
                     + 256.0 * EPS * 100.0;
                 if cur.soc > 0.0 && cur.soc < 100.0 {
                     if !((cur.soc - expect).abs() <= tol) {
@@ -638,17 +637,10 @@ fn oracle(ctx: &mut Ctx, idx: usize, sp: &Spec, oc: &Outcome) {
             if !*present {
                 continue;
             }
-            let caller = if *name == "energy_liquid" {
-                if sp.kind == Kind::Phev { sp.sustain.as_ref().unwrap().ru.associated_energy_unit() } else { main_eu }
-            } else {
-                main_eu
-            };
             let cached = sp.rec.cache.is_some() || sp.sustain.as_ref().map(|s| s.cache.is_some()).unwrap_or(false);
             if !((got - want).abs() <= CHAIN_TOL * abs + 1e-300) {
                 let key = if cached {
                     "predict/cache-key-collision"
-                } else if !same_e(&caller, fu) {
-                    "add_energy/unit-roundtrip-drift"
                 } else {
                     "energy/additivity"
                 };
@@ -670,11 +662,8 @@ fn oracle(ctx: &mut Ctx, idx: usize, sp: &Spec, oc: &Outcome) {
         let tol = TABLE_TOL * e_f.abs() + 16.0 * EPS * (p_acc.abs() + c_acc.abs()) + 1e-300;
         let mixed = battery && !same_e(&bu, &sp.bunit);
         if !((delta - e_f).abs() <= tol) {
-            let caller = if battery { sp.bunit } else { bu };
             let key = if mixed {
                 "best_case_energy_state/unit-mix"
-            } else if !same_e(&caller, &fu) {
-                "add_energy/unit-roundtrip-drift"
             } else {
                 "best_case_energy_state/definition"
             };
@@ -934,7 +923,7 @@ fn corpus() -> Vec<Spec> {
     let mut s = base_spec(Kind::Ice, plain_rec(gas, 0.03, 0.001, 0.5, 0.02, Some((100, vec![0, 0]))), None, 1.0, EnergyUnit::GallonsGasoline, Query::Absent);
     s.grades = None;
     v.push(s);
-    // 4: witness add_energy/unit-roundtrip-drift — energy_electric kept in gallons of gasoline
+    // 4: energy_electric kept in gallons of gasoline (drifted before /repo 7251c8c: add_energy converted the running total there and back)
     let mut s = base_spec(Kind::Bev, plain_rec(kwh, 0.2, 0.001, 3.0, 0.2, None), None, 60.0, EnergyUnit::KilowattHours, Query::Num(80.0));
     s.feu = EnergyUnit::GallonsGasoline;
     s.edges = vec![(0, 160934.0), (0, 1.0), (0, 1.0)];
